@@ -21,6 +21,8 @@
 #include <iostream>
 #include <algorithm>
 
+extern "C" int __llvm_profile_write_file(void) __attribute__((weak));
+
 namespace sim
 {
 
@@ -42,11 +44,27 @@ Outcome execute(const Workload &w, const Plan &plan, std::vector<std::string> *t
     ctx.log.str(plan.prop);
     ctx.log.str(plan.universe);
     bool begun = false;
+    pending_stall().clear();
+    pending_error() = nullptr;
     try
     {
-        S.begin_run(plan, 2000000);
-        begun = true;
-        w.exec(plan, ctx);
+        try
+        {
+            S.begin_run(plan, 2000000);
+            begun = true;
+            w.exec(plan, ctx);
+        }
+        catch (...)
+        {
+            // a failure that had to cross a nothrow C frame (the mutex wrapper) was parked: it is the real cause
+            if (pending_error())
+            {
+                std::exception_ptr e = pending_error();
+                pending_error() = nullptr;
+                std::rethrow_exception(e);
+            }
+            throw;
+        }
     }
     catch (const Violation &v) { o.status = 1; o.cls = plan.prop + "/" + v.oracle; o.msg = v.msg; }
     catch (const EigenAssert &e) { o.status = 1; o.cls = plan.prop + "/eigen_assert"; o.msg = e.msg; }
@@ -54,6 +72,13 @@ Outcome execute(const Workload &w, const Plan &plan, std::vector<std::string> *t
     catch (const Stall &e) { o.status = 1; o.cls = plan.prop + "/stall"; o.msg = e.msg; }
     catch (const HarnessError &e) { o.status = 2; o.cls = "harness"; o.msg = e.what(); }
     catch (const std::exception &e) { o.status = 1; o.cls = plan.prop + "/unexpected_exception"; o.msg = e.what(); }
+    if (!pending_stall().empty())
+    {
+        o.status = 1;
+        o.cls = plan.prop + "/stall";
+        o.msg = pending_stall();
+        pending_stall().clear();
+    }
     o.steps = S.steps();
     o.switches = S.switches();
     o.max_conc = S.max_concurrent();
@@ -406,6 +431,7 @@ static void worker_main(const Args &a, int k, int W, uint64_t start_r, volatile 
     fprintf(out, "T %llu %llu %llu\n", (unsigned long long)steps, (unsigned long long)switches, (unsigned long long)oracle_checks);
     fprintf(out, "D\n");
     fclose(out);
+    if (__llvm_profile_write_file) __llvm_profile_write_file(); // coverage build only (tools/coverage.sh)
     _exit(0);
 }
 
